@@ -26,9 +26,7 @@ configuration `ownerByOr = false`, `gcont ≠ shrink`, `casGc` at pc `gCas`):
 * `lift_step`: conversely, if the thread's pc is the one at which the access is the label `L` (`toL2`; the same
   load of a `next` word is a different L2 label at another pc), the local automaton accepts `decor s t L` and the global guard (`t < c.n`, the dereferenced
   node is live: `okp`) holds, the L2 step is enabled and its successor projects to the local successor;
-* `frame`: steps of other threads leave `s.th t` unchanged (every L2 label is a label of exactly one thread, the
-  second argument of `step`; the only cross-thread writes of `th` are `spawn u` / `join u` of the resize, which write
-  the *helper* thread `u`'s record: listed in `frame`'s hypothesis).
+* the frame lemma (steps of other threads leave `s.th t` unchanged) is in `Src/LfhtFrame.lean`.
 -/
 namespace UrcuVerif.Src.LfhtL
 open UrcuVerif UrcuVerif.Lfht.Conc
